@@ -443,6 +443,34 @@ def create_service_tables(ctx):
                 ctx.find(P, 'RF2-tmr-service', f, 'service:%d:%d' % (elapsed, more), m.loc(f, m.funcs[f].line), '%s: %s' % (site, bad))
             else:
                 ctx.ob(P, 'RF2-tmr-service', f, site, 'ok')
+    # the elapsed event is PUSHED IN FRONT of the elapsed list (COTmrProcess takes events from the head; an event linked
+    # anywhere else cuts the rest of the list off): with a non-empty elapsed list the old head of the pending list points
+    # at the old elapsed head and becomes the new elapsed head; the node that was the elapsed head is not written
+    pe = PEval(m, f)
+    pe.record_sets = False
+    pe.store_filter = lambda k, fld: fld is not None and fld[0] in ('CO_TMR', 'CO_TMR_TIME')
+    trs = pe.run({'tmr': 1, 'tmr->Node': 1, 'call:COIfTimerUpdate': 1, 'tmr->Use': 0x100, 'tmr->Use->Next': 0x300, 'tmr->Elapsed': 0x200})
+    site = 'COTmrService with two events already elapsed: push in front'
+    bad = None
+    for t in trs:
+        final = {}
+        for e in t.stores():
+            final[e[1]] = e[2]
+        if final.get('tmr->Elapsed') != 0x100:
+            bad = 'the elapsed list head becomes %s, required the event that just elapsed' % (hex(final['tmr->Elapsed']) if final.get('tmr->Elapsed') is not None else final.get('tmr->Elapsed'))
+        elif final.get('tmr->Use') != 0x300:
+            bad = 'the pending list head becomes %s, required the successor of the elapsed event' % final.get('tmr->Use')
+        elif 0x200 not in [v for k, v in final.items() if k.endswith('->Next')]:
+            bad = 'the event that just elapsed is not linked to the events that elapsed before (their chain is cut off)'
+        elif any(k.startswith('tmr->Elapsed->') for k in final):
+            bad = 'an event already in the elapsed list is written (%s)' % sorted(k for k in final if k.startswith('tmr->Elapsed->'))
+    if not trs:
+        bad = 'no path'
+    if bad:
+        ctx.ob(P, 'RF2-tmr-service', f, site, None)
+        ctx.find(P, 'RF2-tmr-service', f, 'service:push-front', m.loc(f, m.funcs[f].line), '%s: %s' % (site, bad))
+    else:
+        ctx.ob(P, 'RF2-tmr-service', f, site, 'new head of the elapsed list, old elapsed events behind it')
     ctx.inst('TMR.create-rows', n)
 
 
